@@ -528,6 +528,33 @@ def fs_oracle(obs, x):
     return out
 
 
+def handles_oracle(obs, x):
+    """Every destination file the transfer opened for writing has been closed by the time the transfer is reported done (first
+    on_done, else the return of result()): closing is one of its cleanups, whatever the outcome."""
+    out = []
+    if x.kind != 'download' or not isinstance(x.dest, str):
+        return out
+    if len(complete_contents(obs, x)) > 1:
+        return out  # several downloads share this name: file events cannot be attributed to one of them
+    evs = [e for e in obs.events if e.get('label') == x.label]
+    done_n = min([e['n'] for e in evs if e['kind'] == 'cb.on_done'] + [e['n'] for e in evs if e['kind'] == 'result.ret'], default=None)
+    if done_n is None:
+        return out
+    opens = [e for e in evs if e['kind'] == 'fs.open' and ('w' in e.get('mode', '') or '+' in e.get('mode', '') or 'a' in e.get('mode', '')) and e['n'] < done_n]
+    closes = [e for e in evs if e['kind'] == 'fs.close' and e['n'] < done_n]
+    by_path = {}
+    for e in opens:
+        by_path[e['path']] = by_path.get(e['path'], 0) + 1
+    for e in closes:
+        by_path[e['path']] = by_path.get(e['path'], 0) - 1
+    left = sorted(os.path.basename(p) for p, n in by_path.items() if n > 0)
+    if left:
+        out.append(V(f'{x.label}: destination file(s) {left} opened by the transfer were still open when it was reported done '
+                     f'({x.outcome}{": " + type(x.exc).__name__ if x.outcome == "raised" else ""})', **base_mech(obs, x), sym='handle-open-at-done',
+                     special=x.fifo_reader is not None))
+    return out
+
+
 # ------------------------------------------------------------------------ C08
 def callbacks_oracle(obs, x, expect_no_start=False):
     out = []
@@ -723,7 +750,7 @@ def cancel_oracle(obs, x, how, not_started=False, targeted=True):
     for v in v5:
         v['mech']['entry'] = how
     out += v5
-    v6 = fs_oracle(obs, x)
+    v6 = fs_oracle(obs, x) + handles_oracle(obs, x)
     for v in v6:
         v['mech']['entry'] = how
     out += v6
